@@ -467,13 +467,19 @@ def _frac(f):
 
 class SFloat:
     """Extended real: tag in {FIN,PINF,NINF,NAN} (python int when known) and a z3 Real."""
-    __slots__ = ('tag', 'val')
+    __slots__ = ('tag', 'val', 'narrow')
 
-    def __init__(self, tag, val):
+    def __init__(self, tag, val, narrow=False):
         if isinstance(tag, z3.IntNumRef):
             tag = tag.as_long()
         self.tag = tag
         self.val = val
+        # read from a buffer of the array's coordinate subtype (float32 / int16 / ... in general) and not yet widened
+        # by np.float64(...) / float(...): comparisons are exact in every subtype, arithmetic is not
+        self.narrow = narrow
+
+    def widened(self):
+        return SFloat(self.tag, self.val) if self.narrow else self
 
     @staticmethod
     def const(f):
@@ -575,6 +581,9 @@ class SFloat:
     # DETERMINISTIC function of the operands (uninterpreted), so re-evaluating an expression gives the same value
     def _arith(self, o, f, opname='op'):
         o = to_float(o)
+        if self.narrow or o.narrow:
+            raise Unsupported("arithmetic on a value of the coordinate subtype that was not widened to float64 "
+                              "(evaluated in the subtype: outside the real-number model)")
         if self.known_finite and o.known_finite:
             return SFloat(FIN, f(self.val, o.val))
         both = self.is_fin() & o.is_fin()
